@@ -756,7 +756,12 @@ def rule_dirtaint(F):
         raise AnchorError("process_file has no parameter named config")
     # Config { in_dir (.0), out_dir (.1), component_build (.2) } by declaration order; component_out_dir etc. inside .2
     srcs = {}
-    t = Taint(b, {}, summaries=_dir_summaries)
+    # the theory's file *name* is an input of compilation, the directory it lies in (relative to the source root) is not:
+    # `in_file` carries RELPATH, and only Path::file_stem strips it
+    inf = b.param_local("in_file")
+    if inf is None:
+        raise AnchorError("process_file has no parameter named in_file")
+    t = Taint(b, {inf: "RELPATH"}, summaries=_dir_summaries)
     t.write([cfg, [".0"]], {"DIR"})
     t.write([cfg, [".1"]], {"DIR"})
     t.write([cfg, [".2"]], {"DIR"})
@@ -769,7 +774,9 @@ def rule_dirtaint(F):
             n += 1
             bad = [i for i, a in enumerate(t.arg_taints(tm)) if a]
             if bad:
-                res.bad("M-DIRTAINT:process_file:%s" % cs.rsplit("::", 1)[-1], b.where(bb), "argument(s) %s of %s derive from the directory configuration" % (bad, cs))
+                labs = sorted({l for a in t.arg_taints(tm) for l in a})
+                res.bad("M-DIRTAINT:process_file:%s:%s" % (cs.rsplit("::", 1)[-1], "+".join(labs)), b.where(bb),
+                        "argument(s) %s of %s derive from %s (DIR = in/out/component directories, RELPATH = directory of the theory below the source root)" % (bad, cs, labs))
             else:
                 res.ok()
     # the parallel closure: its captures must be clean except the component config / out dir, and display_ram_module's args clean
@@ -807,6 +814,11 @@ def _dir_summaries(c, arg_taints, t):
     cs = short(c)
     if cs in ("build::Config::build_type",):
         return set()          # only distinguishes Some/None of component_build
+    raw = short(t.get("raw") or "")
+    if any(x.endswith(sfx) for x in (cs, raw) for sfx in ("::with_context", "::context", "::map_err", "::ok_or_else", "::expect", "::unwrap_or_else")):
+        return set(arg_taints[0]) if arg_taints else set()   # the closure / message only shapes the error value
+    if cs in ("std::path::Path::file_stem", "std::path::Path::file_name"):
+        return set()          # the name of the theory file, without its directory
     if cs in ("std::fs::read_to_string", "std::fs::read"):
         return set()          # content of the file, not its location
     if cs in ("build::read_digest", "build::remove_digest", "build::write_digest", "std::fs::create_dir_all", "std::fs::write"):
